@@ -218,8 +218,79 @@ def run(ctx, R):
     import astq
     from rules import dsinit
     rule_globals(ctx, R)
+    rule_globals_ast(ctx, R)
     F = astq.Facts(ctx, 'K0')
     dsinit.rule_range(ctx, R, F)
     rule_shared(ctx, R)
     rule_asm(ctx, R)
     rule_ownbuf(ctx, R)
+
+
+def rule_globals_ast(ctx, R):
+    """companion of RACE-GLOBALS for code the host build does not compile (the IR exists for K0 only)"""
+    import astq
+    from astq import walk, strip_all, show
+    R.rule('RACE-GLOBALS-AST', 'in the configurations the host build does not compile (portable fallback, AArch64, RISC-V) no function writes a file-scope or function-local static variable that is neither constant nor thread_local: '
+           'every assignment / compound assignment / increment whose target is such a variable, and every address of one passed to a call, in the units of those configurations (variables the host build also has are RACE-GLOBALS\' obligation on the IR)', min_instances=3)
+    F0 = astq.Facts(ctx, 'K0')
+    host = set()
+    for f in F0.all_funcs():
+        if f.get('body') is None:
+            continue
+        for x in walk(f['body']):
+            if x['k'] == 'Decl':
+                for d in x['d']:
+                    if d.get('static'):
+                        host.add((f['q'], d['name']))
+    hostg = {g['q'] for rel in ctx.ast_units('K0') for g in F0.unit(rel).get('globals', [])}
+    n = 0
+    for cfg in ('K1', 'K2', 'K3'):
+        F = astq.Facts(ctx, cfg)
+        R.saw(config=cfg)
+        mut = {}
+        for rel in ctx.ast_units(cfg):
+            u = F.unit(rel)
+            for g in u.get('globals', []):
+                if g.get('file', '').startswith(ctx.repo) and not g.get('const') and not g.get('constexpr') and not g.get('tls') and g['q'] not in hostg and not (g.get('ty') or '').startswith('const '):
+                    mut[g['q']] = g
+        seen = set()
+        for f in F.all_funcs():
+            if f.get('body') is None or not f['file'].startswith(ctx.repo) or (f['q'], f['file'], f['line']) in seen:
+                continue
+            seen.add((f['q'], f['file'], f['line']))
+            statics = {}
+            for x in walk(f['body']):
+                if x['k'] == 'Decl':
+                    for d in x['d']:
+                        if d.get('static') and not d.get('tls') and not d.get('const') and not (d.get('ty') or '').startswith('const ') and (f['q'], d['name']) not in host:
+                            statics[d['id']] = d
+            if not mut and not statics:
+                continue
+            n += 1
+
+            def target(nod):
+                nod = strip_all(nod)
+                while nod['k'] in ('Idx', 'Mem', 'Cast') and nod['k'] != 'Ref':
+                    nod = strip_all(nod.get('b') or nod.get('e'))
+                if nod['k'] == 'Ref':
+                    if nod.get('id') in statics:
+                        return 'static local %s' % statics[nod['id']]['name']
+                    if nod.get('q') in mut and nod.get('dk') == 'Var':
+                        return 'global %s' % nod['q']
+                return None
+            for x in walk(f['body']):
+                t = None
+                if x['k'] in ('Assign', 'CAssign'):
+                    t = target(x['l'])
+                elif x['k'] == 'Un' and ('++' in x.get('op', '') or '--' in x.get('op', '')):
+                    t = target(x['e'])
+                elif x['k'] == 'Call':
+                    for a in x.get('a', []):
+                        aa = strip_all(a)
+                        while aa['k'] == 'Cast':
+                            aa = strip_all(aa['e'])
+                        if aa['k'] == 'Un' and aa.get('op') == '&':
+                            t = t or target(aa['e'])
+                if t:
+                    R.violation('[%s] %s writes %s' % (cfg, f['q'], t), '%s:%d' % (f['file'], x.get('ln') or f['line']), expected='no write to shared static storage outside static initialisation', found=show(x)[:90])
+        R.ok('[%s] %d functions with config-specific statics examined, %d config-specific mutable globals' % (cfg, n, len(mut)), 'src')
